@@ -549,7 +549,8 @@ class BasicContiguousVector<cntgs::Options<Option...>, Parameter...>
     template <class... TOption>
     constexpr auto equal(const cntgs::BasicContiguousVector<cntgs::Options<TOption...>, Parameter...>& other) const
     {
-        if constexpr (ListTraits::IS_EQUALITY_MEMCMPABLE)
+        // comparing the whole buffer is only correct when it holds no padding bytes
+        if constexpr (ListTraits::IS_EQUALITY_MEMCMPABLE && alignof(StorageElementType) == 1)
         {
             if (empty())
             {
@@ -570,7 +571,8 @@ class BasicContiguousVector<cntgs::Options<Option...>, Parameter...>
     constexpr auto lexicographical_compare(
         const cntgs::BasicContiguousVector<cntgs::Options<TOption...>, Parameter...>& other) const
     {
-        if constexpr (ListTraits::IS_LEXICOGRAPHICAL_MEMCMPABLE && ListTraits::IS_FIXED_SIZE_OR_PLAIN)
+        if constexpr (ListTraits::IS_LEXICOGRAPHICAL_MEMCMPABLE && ListTraits::IS_FIXED_SIZE_OR_PLAIN &&
+                      alignof(StorageElementType) == 1)
         {
             if (empty())
             {
